@@ -5,8 +5,10 @@ CHECK = {'level': 'exploration',
          'doubles and their +-1 neighbours, binade boundaries, DBL_MAX/DBL_MIN neighbours, printf renderings, powers of ten) x layout (point '
          'anywhere, exponent -400..400, leading/trailing zeros, su of 1..60 digits) x route (parse_numb / CHAR coercion); (c) finite doubles '
          '(literals, random bits, exact ties at the rounding digit and their neighbours, runs of nines, 10^9 group boundaries, powers) x su x '
-         'scale -300..300 x max_leading_zeroes 0..10 x su_rule 2..999999999; non-trivial = (a) a refused string or one with exponent/su, '
-         '(b) >= 17 significant digits or a generated tie or |exponent| > 30, (c) a tie, a non-zero su or |scale| > 8; distinct = hash of the case',
+         'scale -300..300 x max_leading_zeroes 0..10 x su_rule 2..999999999; non-trivial = (a) a refused single-edit neighbour of a valid number, '
+         '(b) a text aimed at a rounding boundary (midpoint, binade, range extreme and neighbours) or >= 17 significant digits with |exponent| > 30, '
+         '(c) an exact tie at the rounding digit or its +-1 ulp neighbour, a run of nines, a 10^9 group boundary, or a non-zero su with |scale| > 8; '
+         'distinct = hash of the case',
  'assumptions': ['glibc strtod is correctly rounded in every rounding mode and printf("%.1100f") prints the exact binary value (the trusted arithmetic)',
                  'results whose exact magnitude is non-zero and outside [DBL_MIN, DBL_MAX] are only required to terminate cleanly (labelled, not compared)',
                  'only FE_TONEAREST is checked',
@@ -16,7 +18,7 @@ CHECK = {'level': 'exploration',
                  'autoinit with su == 0: the text must be the correct rendering at the scale it exhibits and either denote val exactly or carry >= 15 significant digits; '
                  'a refusal is tolerated when the exact rendering needs more than 300 decimals',
                  'VERIF_TOLERATE_LOCALE=1 re-establishes LC_NUMERIC after each init_numb/autoinit_numb call so the search can continue behind F-LOCALE'],
- 'min_evaluations': 3000,
+ 'min_evaluations': 30000,
  'technique': 'property-based testing (rapidcheck): grammar-plus-noise strings against a hand-written recogniser; boundary-aimed decimal strings against '
               'glibc strtod (bit-exact); generated doubles against exact decimal expansion with half-even rounding on digit strings; parse round trip',
  'level_text': 'Generated search with exact-arithmetic oracles over acceptance, text->double and double->text, under ASan/UBSan with allocation balance '
@@ -24,5 +26,5 @@ CHECK = {'level': 'exploration',
                'Finds mis-rounding on the inputs generated; proves nothing beyond them.',
  'level_note': 'Trusted: glibc strtod/printf exactness; my recogniser and decimal rounding routines; rapidcheck; sanitizers.',
  'engines': [{'src': 'pbt/C10_numbers.cpp',
-              'quick': {'workers': 8, 'cases': 4000, 'size': 100},
-              'thorough': {'workers': 16, 'cases': 200000, 'size': 100}}]}
+              'quick': {'workers': 8, 'cases': 12000, 'size': 100},
+              'thorough': {'workers': 16, 'cases': 600000, 'size': 100, 'timeout': 7200}}]}
